@@ -35,7 +35,7 @@ def pollute(n: int, seed, members=None) -> int:
     from paulie.common.pauli_string_collection import PauliStringCollection
     from paulie.common.pauli_string_factory import get_identity, get_single, get_last, get_pauli_string
     r = random.Random(f"pollute:{n}:{seed}")
-    objs = []
+    objs, lists = [], []
     def grab(f):
         try:
             x = f()
@@ -48,6 +48,8 @@ def pollute(n: int, seed, members=None) -> int:
                 objs.extend(y for y in x if isinstance(y, PauliString))
             except TypeError:
                 pass
+            if isinstance(x, list) and x:
+                lists.append(x)
     if n >= 1:
         grab(lambda: get_identity(n)); grab(lambda: get_last(n))
         for i in range(n):
@@ -75,4 +77,86 @@ def pollute(n: int, seed, members=None) -> int:
             _scramble(p, r)
         except Exception:
             pass
+    for x in lists:          # the returned containers are the caller's as well: drop, reorder, duplicate entries
+        try:
+            del x[0]
+            x.reverse()
+            if x:
+                x.append(x[0])
+        except Exception:
+            pass
     return len(objs)
+
+
+def pollute_all(seed, maxn=8) -> int:
+    """every length 1..maxn (enumerations only up to 4 qubits)"""
+    return sum(pollute(n, f"{seed}:{n}", ["X" * n, "Z" + "I" * (n - 1)]) for n in range(1, maxn + 1))
+
+
+def _mulstr(a, b):
+    T = {"I": 0, "X": 1, "Z": 2, "Y": 3}
+    return "".join("IXZY"[T[x] ^ T[y]] for x, y in zip(a, b))
+
+
+# ---- a PauliString with the text `s`, ASSEMBLED through the in-place / derived-object API instead of parsed
+def assembled_string(s, r):
+    from paulie.common.pauli_string_bitarray import PauliString
+    from paulie.common.pauli_string_factory import get_identity, get_single
+    n = len(s)
+    if n == 0:
+        return PauliString(pauli_str=s)
+    k = r.randrange(9)
+    if k == 0:
+        p = PauliString(n=n)
+        i = 0
+        while i < n:
+            b = r.randint(2, 3)
+            p.set_substring(i, s[i:i + b]); i += b
+        return p
+    if k == 1:
+        p = PauliString(pauli_str="".join(r.choice("IXYZ") for _ in range(n)))
+        i = 0
+        while i < n:
+            b = r.randint(1, 4)
+            p[i] = s[i:i + b]; i += b
+        return p
+    if k == 2 and n >= 2:
+        h = r.randint(1, n - 1)
+        return PauliString(pauli_str=s[:h]) + PauliString(pauli_str=s[h:])
+    if k == 3:
+        u = "".join(r.choice("IXYZ") for _ in range(n))
+        return PauliString(pauli_str=u) @ PauliString(pauli_str=_mulstr(u, s))
+    if k == 4:
+        t = s.rstrip("I") or s[:1]
+        return PauliString(pauli_str=t).expand(n)
+    if k == 5:
+        p = PauliString(pauli_str="".join(r.choice("XYZ") for _ in range(n))).copy()
+        hash(p); p.get_index() if n <= 20 else None
+        p.set_substring(0, PauliString(pauli_str=s))
+        return p
+    if k == 6:
+        p = get_identity(n)
+        for i, ch in enumerate(s):
+            if ch != "I":
+                p.set_substring(i, get_single(1, 0, ch))
+        return p
+    if k == 7 and n <= 6:
+        # walk there with inc() from a smaller string of the enumeration order
+        p = PauliString(pauli_str=s)
+        idx = p.get_index() if hasattr(p, "get_index") else None
+        q = PauliString(pauli_str=s)
+        back = r.randint(1, 3)
+        allp = None
+        try:
+            allp = list(PauliString(n=n).gen_all_pauli_strings())
+            pos = [str(x) for x in allp].index(s)
+            if pos >= back:
+                q = allp[pos - back].copy()
+                for _ in range(back):
+                    q.inc()
+                return q
+        except Exception:
+            pass
+        return p
+    return PauliString(pauli_str=s)
+
